@@ -1299,11 +1299,17 @@ func collectTextNodes(parent *Inline, r *inlineByteReader, end int, textKind Inl
 		}
 		if r.jumped() {
 			if r.prevPos > plainStart {
+				textEnd := r.prevPos + 1
+				if textEnd > end {
+					// The reader was advanced past the end
+					// (a backslash as the last byte looks at the byte after it).
+					textEnd = end
+				}
 				parent.children = append(parent.children, &Inline{
 					kind: textKind,
 					span: Span{
 						Start: plainStart,
-						End:   r.prevPos + 1,
+						End:   textEnd,
 					},
 				})
 			}
